@@ -29,8 +29,17 @@ ASSUMPTIONS = [
 STREAMS = [(130816, 1, 255), (130816, 2, 255), (126720, 1, 5), (126720, 1, 6), (126720, 2, 5), (126720, 1, 255),
            # interferers: other fast PGNs of the same identifier neighbourhood from the same sources. Their own results are not
            # judged (their payloads match no definition), but they must not disturb the observed streams.
-           (130820, 1, 255), (130817, 1, 255), (130850, 2, 255), (126208, 1, 5), (126464, 1, 5)]
+           (130820, 1, 255), (130817, 1, 255), (130850, 2, 255), (126208, 1, 5), (126464, 1, 5),
+           # observed streams whose (source, destination) pairs read the same when written without a separator (hex 1|23 = 12|3, decimal
+           # 1|23 = 12|3, 11|1 = 1|11) or differ only beyond the low bits
+           (126720, 0x01, 0x23), (126720, 0x12, 0x03), (126720, 1, 23), (126720, 12, 3), (126720, 11, 1), (126720, 1, 11),
+           (126720, 0x81, 5), (126720, 1, 0x85)]
 OBSERVED = 6
+AMBIGUOUS = list(range(11, 19))
+
+
+def observed(s):
+    return s < OBSERVED or s >= 11
 
 
 class Interp:
@@ -101,7 +110,7 @@ class Interp:
                 r = self._send(s, c["frames"][0])
             except Exception as e:
                 return [(f"{tag}|decoder-error|{type(e).__name__}", f"step {len(self.ops) - 1} {op}: {type(e).__name__}: {e}")]
-            if r is not None and s < OBSERVED:
+            if r is not None and observed(s):
                 return [(f"{tag}|redelivered-by-first-frame-duplicate", f"step {len(self.ops) - 1} {op}: a stray duplicate of a first frame produced a message "
                          f"({r.id}) that was never sent")]
             return []
@@ -122,7 +131,7 @@ class Interp:
         completes = (not c["done"]) and k not in c["got"] and (c["got"] | {k}) == set(range(len(c["frames"])))
         c["got"].add(k)
         tag = "C04|" + self.fmt
-        if s >= OBSERVED:
+        if not observed(s):
             if completes:
                 c["done"] = True
             try:
@@ -189,14 +198,18 @@ def make_machine_factory(ctx: Ctx, fmt: str):
                 self.last_seq = {}
                 self.counted = False
 
-            @initialize(n=st.integers(2, 4), interferers=st.booleans())
-            def setup(self, n, interferers):
+            @initialize(n=st.integers(2, 4), interferers=st.booleans(), amb=st.integers(0, 7))
+            def setup(self, n, interferers, amb):
                 self.n_streams = n
+                # one run in four observes a pair of streams whose keys are easy to confuse instead of the first n
+                self.obs = list(range(n))
+                if amb < 4:
+                    self.obs = AMBIGUOUS[2 * amb:2 * amb + 2]
                 # stream indices in use: the first n observed ones, optionally all interferers
-                self.extra = list(range(OBSERVED, len(STREAMS))) if interferers else []
+                self.extra = list(range(OBSERVED, 11)) if interferers else []
 
             def _streams(self):
-                return list(range(self.n_streams)) + list(getattr(self, "extra", []))
+                return list(getattr(self, "obs", range(self.n_streams))) + list(getattr(self, "extra", []))
 
             def _do(self, op):
                 res = self.it.step(op)
@@ -209,7 +222,8 @@ def make_machine_factory(ctx: Ctx, fmt: str):
             @rule(data=st.data(), s=st.integers(0, 3), big=st.integers(0, 19),
                   padkind=st.sampled_from(["none", "none", "00", "ff", "rand"]))
             def start(self, data, s, big, padkind):
-                s %= self.n_streams
+                obs = getattr(self, "obs", list(range(self.n_streams)))
+                s = obs[s % len(obs)]
                 if self.extra and big % 3 == 1:
                     s = self.extra[(s + big) % len(self.extra)]
                 pgn = STREAMS[s][0]
@@ -218,7 +232,7 @@ def make_machine_factory(ctx: Ctx, fmt: str):
                     L = data.draw(st.integers(61, 223), label="length")
                 else:
                     L = data.draw(st.one_of(st.integers(0, 60), st.sampled_from([0, 5, 6, 7, 8, 12, 13, 14, 15, 20, 21])), label="length")
-                if s >= OBSERVED:
+                if not observed(s):
                     payload = bytes([0xE5, 0x98]) + bytes([self.msg_no & 0xFF]) * max(L - 2, 0) if L >= 2 else bytes(L)
                 else:
                     payload = data.draw(fp.payload(pgn, L, L, tag=self.msg_no), label="payload")
